@@ -138,4 +138,19 @@ theorem term_contract (pre post : Term) (m a b : Nat) :
       rw [h1, h2]
       simp [thenApply]
 
+/-- matrix element `⟨f| r⟩` of a signed single-determinant result against an arbitrary integer-valued bra -/
+def evalRes (f : Nat → Nat → Int) (r : Option (Bool × Nat × Nat)) : Int :=
+  match r with
+  | none => 0
+  | some (s, a, b) => if s then - f a b else f a b
+
+theorem evalRes_negRes (f : Nat → Nat → Int) (r : Option (Bool × Nat × Nat)) :
+    evalRes f (negRes r) = - evalRes f r := by
+  unfold evalRes negRes
+  cases r with
+  | none => rfl
+  | some x =>
+    obtain ⟨s, a, b⟩ := x
+    cases s <;> simp
+
 end Fock
